@@ -1,8 +1,8 @@
-(** C02 - path(f), getpath and updates agree on the positions a filter denotes. (first stage)
+(** C02 - path(f), getpath and updates agree on the positions a filter denotes.
     Model: Core/Run.v ([part_run]/[part_paths], [path_run]/[path_paths] mirror jaq-core/src/path.rs),
     Val/Index.v (mirrors the indexing primitives of jaq-json/src/lib.rs). *)
 From Coq Require Import List ZArith.
-From JaqV Require Import Base.Stream Val.Val Val.Err Val.Index Core.Natives Core.Run Proofs.PathLaws Proofs.GetpathLaws.
+From JaqV Require Import Base.Stream Val.Val Val.Err Val.Index Core.Syntax Core.Natives Core.Run Proofs.PathLaws Proofs.GetpathLaws Proofs.MonadLaws Proofs.UpdateRules.
 Import ListNotations.
 
 (** one path part: evaluating for paths yields, in order, exactly the values that evaluating for values yields,
@@ -55,3 +55,77 @@ Print Assumptions getpath_of_path_json.
 Example good_values_exist :
   GetpathLaws.good (Arr [vint 1%Z; Obj [(vstr [97%Z], Arr [Null; vint 2%Z]); (vint 5%Z, Bool true)]; TStr []]).
 Proof. exact GetpathLaws.good_ex. Qed.
+
+(** ** the reduction rules of updates *)
+(** the interpreter's update clauses are the manual's rules: *)
+(** [. |= u] applies u *)
+Theorem update_identity : forall d nr defs n c v f, update d nr defs (S n) KId c v f = f v.
+Proof. reflexivity. Qed.
+Print Assumptions update_identity.
+
+(** [(f | g) |= u]  =  [f |= (g |= u)] *)
+Theorem update_pipe : forall d nr defs n l r c v f,
+  update d nr defs (S n) (KPipe l None r) c v f = update d nr defs n l c v (fun x => update d nr defs n r c x f).
+Proof. reflexivity. Qed.
+Print Assumptions update_pipe.
+
+(** [(f, g) |= u]  =  [(f |= u) | (g |= u)] *)
+Theorem update_comma : forall d nr defs n l r c v f,
+  update d nr defs (S n) (KComma l r) c v f = sbind (update d nr defs n l c v f) (fun x => update d nr defs n r c x f).
+Proof. reflexivity. Qed.
+Print Assumptions update_comma.
+
+(** [(f as $x | g) |= u]: binding by binding, each on the result of the one before *)
+Theorem update_binding : forall d nr defs n l pat r c v f,
+  update d nr defs (S n) (KPipe l (Some pat) r) c v f
+  = sreduce (run_and_bind d nr defs n l c v pat) v (fun c' x => update d nr defs n r c' x f).
+Proof. reflexivity. Qed.
+Print Assumptions update_binding.
+
+Theorem reduce_over_bindings : forall A (xs : list A) acc (g : A -> val -> str val),
+  sreduce (of_list xs) acc g = fold_left (fun s x => sbind s (g x)) xs (sone acc).
+Proof. exact UpdateRules.reduce_over_bindings. Qed.
+Print Assumptions reduce_over_bindings.
+
+(** [if c then f else g end |= u]: per output of the condition, on the result of the one before *)
+Theorem update_conditional : forall d nr defs n i th el c v f,
+  update d nr defs (S n) (KIte i th el) c v f
+  = sreduce (run d nr defs n i c v) v (fun x a => update d nr defs n (if as_bool x then th else el) c a f).
+Proof. reflexivity. Qed.
+Print Assumptions update_conditional.
+
+(** [(f // g) |= u]: f when f has a truthy output - the manual's [if first(f // false)] -, else g *)
+Theorem update_alternative : forall d nr defs n l r c v f,
+  update d nr defs (S n) (KAlt l r) c v f
+  = match sfilter as_bool (run d nr defs n l c v) with
+    | SNil => update d nr defs n r c v f
+    | SBot => SBot
+    | SUnk => SUnk
+    | _ => update d nr defs n l c v f
+    end.
+Proof. reflexivity. Qed.
+Print Assumptions update_alternative.
+
+(** a path [t.p1.p2...]: every exploded path is applied, in sequence, below t *)
+Theorem update_path : forall d nr defs n l path c v f,
+  update d nr defs (S n) (KPath l path) c v f
+  = update d nr defs n l c v (fun x =>
+      collect_then (explode d nr defs n path c v) (fun pss =>
+        fold_left (fun acc ps => sbind acc (fun a => path_update ps a f)) pss (sone x))).
+Proof. reflexivity. Qed.
+Print Assumptions update_path.
+
+(** an exploded path is updated part by part: [.p.q |= u] = [.p |= (.q |= u)] *)
+Theorem path_update_composes : forall p1 p2 v f, p1 <> [] -> p2 <> [] ->
+  path_update (p1 ++ p2) v f = path_update p1 v (fun x => path_update p2 x f).
+Proof. exact UpdateRules.path_update_composes. Qed.
+Print Assumptions path_update_composes.
+
+(** what constructs a value has no path: updating it fails rather than guesses *)
+Theorem update_of_constructed_value_fails : forall d nr defs n c v f t,
+  (exists x, t = KInt x) \/ (exists x, t = KNum x) \/ (exists x, t = KStr x) \/ (exists x, t = KArr x) \/ t = KObjEmpty
+  \/ (exists k x, t = KObjSingle k x) \/ (exists x, t = KNeg x) \/ (exists l o r, t = KMath l o r) \/ (exists l o r, t = KCmp l o r)
+  \/ (exists l r, t = KLogic l true r) \/ (exists l r, t = KLogic l false r) \/ t = KToString ->
+  update d nr defs (S n) t c v f = serr (EPathExpr v).
+Proof. exact UpdateRules.update_of_constructed_value_fails. Qed.
+Print Assumptions update_of_constructed_value_fails.
